@@ -250,10 +250,11 @@ theorem uncurry_full_fails :
     ¬ ∀ (outer inner : List Param) (f : List Nat → List Nat) (a : Nat) (rest : List Nat),
         ValidSig outer → ValidSig inner → outer.length = 1 → inner.length = rest.length →
         (∀ n ∈ names outer ++ names inner, n ≠ [] ∧ n ≠ fName) →
-        wrapperWellFormed (uncurryTm Cfg.current outer inner 1) = true := by
+        runUncurry Cfg.current outer inner f (a :: rest) = Spec.uncurrySpec f (a :: rest) := by
   intro h
-  exact absurd (h [⟨innerPrefix ++ ['0'], 0⟩] [⟨['_'], 1⟩] rev 1 [2] (by decide) (by decide) rfl rfl (by decide)) (by decide)
+  exact absurd (h [⟨['a'], 0⟩] [⟨['a'], 1⟩] rev 1 [2] (by decide) (by decide) rfl rfl (by decide)) (by decide)
 
+example : wrapperWellFormed (uncurryTm Cfg.current [⟨innerPrefix ++ ['0'], 0⟩] [⟨['_'], 1⟩] 1) = false := by decide
 example : wrapperWellFormed (uncurryTm Cfg.current [⟨['a'], 0⟩] [⟨['a'], 1⟩] 1) = false := by decide
 
 /-! ### Uncurry of Curry -/
